@@ -5,7 +5,7 @@
    generateReflectionType (scan of AllMessagesByPtr for the message's full name). Go map iteration = any permutation.
    The driver runs gen_outcome against the plugin's answer to 19 features= strings and msg_index against the index
    found in the emitted sources; the runner byte-compares repeated process runs, permutations and subsets. *)
-From CP Require Import Bytes GenNames GenOrder GenOrderProofs.
+From CP Require Import Bytes GenNames GenOrder GenOrderProofs GoFun GenProg GenProgProofs.
 From Coq Require Import Permutation.
 Local Open Scope N_scope.
 
@@ -32,3 +32,42 @@ Example order_example :
   gen_outcome s_protoc = Skipped /\
   gen_outcome (s_fastf ++ [plus]) = UnknownFeature.
 Proof. exact GenOrderProofs.gen_outcome_examples. Qed.
+
+(* ---- translator tie (task T17, Model/GenProg.v) -------------------------------------------------------------------------------------
+   /repo/generator/features.go and /repo/cmd/protoc-gen-go-pulsar/main.go are re-translated on every run of this check (engine
+   "genprog": go/parser, purely syntactic) into the statement language of Model/GenProg.v and compared with the canonical programs
+   [canon_features_go], [canon_main_go] (the current source transcribed once). The theorems below say that the canonical programs,
+   INTERPRETED, are the functions of Model/GenOrder.v — for EVERY order in which `range` visits a Go map (gpp_perm_ok: any permutation)
+   and EVERY algorithm behind sort.Slice (gpp_sorter_ok: a permutation, sorted whenever the comparator is a strict total order). *)
+
+(* findFeatures: the returned features are GenOrder.find_features, each name replaced by the value registered under it; an unknown
+   name is returned as the error; one new map (`required`) is left behind and nothing else changes *)
+Theorem find_features_prog_correct : GenProg.find_features_prog_stmt.
+Proof. exact GenProgProofs.find_features_prog. Qed.
+
+(* generateAllFiles: an unknown feature -> the error, no file; else one file <prefix>.pulsar.go per plugin file with Generate = true,
+   in order, with the two header lines, skipped unless the file is proto3 and some feature reports "generated" (GenOrder.generated) *)
+Theorem generate_all_files_prog_correct : GenProg.generate_all_files_prog_stmt.
+Proof. exact GenProgProofs.generate_all_files_prog. Qed.
+
+(* the whole plugin (main: flags, the loop over plugin.Files with rewriteMessageField, generateAllFiles), from the initialisation of the
+   package-level variables and the registration of the features on: the response's error, the object tree and the files made are
+   gpp_main_spec — a function of the request alone *)
+Theorem main_prog_correct : GenProg.main_prog_stmt.
+Proof. exact GenProgProofs.main_prog. Qed.
+
+(* the files of the response: <prefix>.pulsar.go for exactly the proto3 files with Generate = true; none when no feature generated *)
+Theorem emitted_files : forall fs files,
+  gpp_emitted (gpp_outs_spec fs files) =
+  if generated fs then map (fun f => fi_prefix f ++ s_pulsar_go) (filter (fun f => fi_generate f && fi_proto3 f) files) else [].
+Proof. exact GenProgProofs.outs_spec_emitted. Qed.
+
+(* non-vacuity: the canonical program run with the map iterated backwards and the unstable sort, and forwards with the stable one *)
+Example genprog_order_example :
+  let run p s names := match gpp_run_find_features p s gpp_default_feat_gen canon_genprog 3 gpp_default_registry names with
+                       | GpOk vs _ => Some vs | _ => None end in
+  run (@rev _) gpp_isort_rev [s_protoc; s_fastf] = Some [GpvSlice [GpvFeat s_fastf; GpvFeat s_protoc]; GpvErr None] /\
+  run (fun m => m) gpp_isort [s_protoc; s_fastf] = Some [GpvSlice [GpvFeat s_fastf; GpvFeat s_protoc]; GpvErr None] /\
+  run (@rev _) gpp_isort [s_all] = Some [GpvSlice [GpvFeat s_fastf; GpvFeat s_protoc]; GpvErr None] /\
+  run (fun m => m) gpp_isort [s_fastf; s_md] = Some [GpvSlice []; GpvErr (Some (s_unknown_feature, [s_md]))].
+Proof. vm_compute. repeat split; reflexivity. Qed.
